@@ -864,6 +864,29 @@ theorem C18_no_panic (sp : Spec) (en : Enums) (ctx : Ctx) (req : Req)
     | some dim =>
       (repeat' split) <;> simp_all [reject, accept]
 
+/-- **C18_headers.** The header middleware stands in front of every endpoint: a request without
+`X-User-Id` / `X-Plan-Id`, with an unknown plan, or whose user id is not a single path segment
+(".", "..", anything containing `/` or `\`) is answered 400 and hands nothing on; otherwise the
+endpoint's handler decides — so every theorem about `handle` is a theorem about `handleHttp`. -/
+theorem C18_headers (sp : Spec) (en : Enums) (h : Headers) (ctx : Ctx) (req : Req) :
+    (headersOk h = false → (handleHttp sp en h ctx req).status = 400 ∧ (handleHttp sp en h ctx req).eff = none) ∧
+    (headersOk h = true → handleHttp sp en h ctx req = handle sp en ctx req) ∧
+    (headersOk h = true → h.userId ≠ [] ∧ h.userId ≠ S "." ∧ h.userId ≠ S ".." ∧
+        ∀ c ∈ h.userId, c ≠ 0x2f#8 ∧ c ≠ 0x5c#8) := by
+  refine ⟨?_, ?_, ?_⟩
+  · intro hh; simp [handleHttp, hh, reject]
+  · intro hh; simp [handleHttp, hh]
+  · intro hh
+    simp only [headersOk, userIdOk, Bool.and_eq_true, Bool.not_eq_true', decide_eq_false_iff_not,
+      List.any_eq_false, Bool.or_eq_true, decide_eq_true_eq, not_or] at hh
+    obtain ⟨⟨⟨⟨⟨h1, h2⟩, h3⟩, h4⟩, _⟩, _⟩ := hh
+    refine ⟨?_, h2, h3, h4⟩
+    intro he; simp [he] at h1
+
+example : headersOk ⟨S "alice", S "BASIC", true⟩ = true ∧ headersOk ⟨S "..", S "BASIC", true⟩ = false ∧
+    headersOk ⟨S "a/b", S "BASIC", true⟩ = false ∧ headersOk ⟨S "a\\b", S "BASIC", true⟩ = false ∧
+    headersOk ⟨S ".", S "BASIC", true⟩ = false ∧ headersOk ⟨S "alice", S "NOPE", false⟩ = false := by decide
+
 /-! ## paging arithmetic -/
 
 theorem toInt_gsmin (a b : BitVec 64) : (FactsC18.smin a b).toInt = if a.toInt < b.toInt then a.toInt else b.toInt := by
@@ -886,6 +909,18 @@ theorem C18_slice_bounds (off lim n : BitVec 64) (ho : 0 ≤ off.toInt) (hl : 0 
     sliceOk (FactsC18.sliceLo off lim n) (FactsC18.sliceHi off lim n) n := by
   have := BitVec.toInt_lt (x := n); have := BitVec.toInt_lt (x := off); have := BitVec.toInt_lt (x := lim)
   simp only [sliceOk, FactsC18.sliceLo, FactsC18.sliceHi, toInt_gsmin, toInt_gsmax, BitVec.toInt_add, BitVec.toInt_sub, Int.bmod_def]
+  (repeat' split) <;> omega
+
+set_option linter.unusedSimpArgs false in
+/-- the working tree clamps offset and limit at 0 (`max(Offset, 0)`, `max(Limit, 0)`): for its arithmetic
+the bounds hold for EVERY offset and limit, negative ones included (a negative limit can reach the shard
+when `maxSearchLimit` is configured negative) -/
+theorem C18_slice_bounds_clamped (off lim n : BitVec 64) (hn : 0 ≤ n.toInt) :
+    sliceOk (FactsC18.sliceLo off lim n) (FactsC18.sliceHi off lim n) n := by
+  have := BitVec.toInt_lt (x := n); have := BitVec.toInt_lt (x := off); have := BitVec.toInt_lt (x := lim)
+  have := BitVec.le_toInt (x := off); have := BitVec.le_toInt (x := lim)
+  simp only [sliceOk, FactsC18.sliceLo, FactsC18.sliceHi, toInt_gsmin, toInt_gsmax, BitVec.toInt_add, BitVec.toInt_sub, Int.bmod_def,
+    BitVec.toInt_zero, BitVec.toInt_ofNat]
   (repeat' split) <;> omega
 
 set_option linter.unusedSimpArgs false in
@@ -1801,7 +1836,10 @@ theorem C18_pin_skeleton : FactsC18.skeleton = [
   ("utils.DecodeValid", "if err != nil"),
   ("utils.DecodeValid", "if err != nil"),
   ("utils.DecodeValid", "if err != nil"),
+  ("utils.DecodeValid", "if err != nil"),
+  ("utils.DecodeValid", "if err != nil"),
   ("middleware.AppHeaderMiddleware", "if appHeaders.UserId == \"\" || appHeaders.PlanId == \"\""),
+  ("middleware.AppHeaderMiddleware", "if appHeaders.UserId == \".\" || appHeaders.UserId == \"..\" || strings.ContainsAny(appHeaders.UserId, `/\\`)"),
   ("middleware.AppHeaderMiddleware", "if !ok"),
   ("cluster.ClusterNode.InsertPoints", "if err != nil"),
   ("cluster.ClusterNode.InsertPoints", "if totalPoints+int64(len(points)) > col.UserPlan.MaxCollectionPointCount"),
